@@ -25,21 +25,21 @@ Example ex_lookup : forall t4 gs, from_mappings ex_input = Built (Some t4) (Some
   cmap4_map t4 98 = Some 29 /\ cmap4_map t4 100 = None /\ cmap12_map gs 1114111 = Some 10.
 Proof. intros t4 gs H. vm_compute in H. inversion H; subst. vm_compute. auto. Qed.
 
-(* F-2: one valid pair, builder panics (the model's panic site = i16 conversion in create_format_4) *)
-Example f2_witness : from_mappings [(65, 40000)] = Panic.
-Proof. vm_compute. reflexivity. Qed.
-(* the smallest delta that panics, and its neighbours that do not *)
-Example f2_boundary : delta_i16 32767 = Some 32767 /\ delta_i16 32768 = None /\ delta_i16 65535 = None
-                      /\ delta_i16 (-32768) = Some (-32768) /\ delta_i16 (-32769) = Some 32767.
+(* the former F-2 witness (gid - cp = 39935 in [32768, 65535]) now builds and answers *)
+Example f2_witness_builds : exists t4, from_mappings [(65, 40000)] = Built (Some t4) None
+  /\ deltas t4 = [-25601; 1] /\ cmap4_map t4 65 = Some 40000 /\ cmap4_map t4 66 = None
+  /\ charmap_map (records_of (Some t4) None) 65 = Some 40000.
+Proof. eexists. vm_compute. repeat split; reflexivity. Qed.
+Example f2_boundary : delta_i16 32767 = 32767 /\ delta_i16 32768 = -32768 /\ delta_i16 65535 = -1
+                      /\ delta_i16 (-32768) = -32768 /\ delta_i16 (-32769) = 32767.
 Proof. vm_compute. auto. Qed.
 
 (* a conflict is reported with the smaller glyph id first *)
 Example ex_conflict : from_mappings [(65, 9); (66, 1); (65, 4)] = Conflict 65 4 9.
 Proof. vm_compute. reflexivity. Qed.
 
-(* Charmap::mappings with the limits skrifa passes omits U+10FFFF (Cmap12IterLimits.max_char is
-   used as an exclusive bound): the model reproduces the implementation's behaviour *)
-Example charmap_mappings_drops_10FFFF :
-  charmap_mappings (records_of None (Some [(1114110, 1114111, 5)])) 10 = [(1114110, 5)]
+(* Charmap::mappings keeps U+10FFFF (the former finding: max_char was used as an exclusive bound) *)
+Example charmap_mappings_keeps_10FFFF :
+  charmap_mappings (records_of None (Some [(1114110, 1114111, 5)])) 10 = [(1114110, 5); (1114111, 6)]
   /\ charmap_map (records_of None (Some [(1114110, 1114111, 5)])) 1114111 = Some 6.
 Proof. vm_compute. auto. Qed.
